@@ -66,7 +66,13 @@ func Harness_C14_DocumentRoundTrip() {
 	}
 	if nm > 1 {
 		doc["extra"] = map[string]interface{}{"nested": []interface{}{verifrt.AnyAtom("nested"), true, nil}}
-		switch verifrt.Choose("odd-member-value", 4) { // further members are arbitrary JSON: null, false, empty containers
+		switch verifrt.Choose("odd-member-value", 7) { // further members are arbitrary JSON: null, false, empty containers, short values
+		case 4:
+			doc["blank"] = ""
+		case 5:
+			doc["obj"] = map[string]interface{}{}
+		case 6:
+			doc["count"] = 7
 		case 1:
 			doc["note"] = nil
 		case 2:
